@@ -190,7 +190,8 @@ func (x *Xlat) loopBegin(st *State, fr *Frame, n ast.Node) *loopCtx {
 func (x *Xlat) loopInvs(st *State, fr *Frame, lc *loopCtx, n ast.Node, phase string, assume bool) {
 	if lc.spec == nil {
 		// no annotation on this loop: the head is still covered when the function under verification has preconditions
-		if assume && !st.dead() && x.lock == nil && x.fi != nil && x.fi.Spec != nil && len(x.fi.Spec.Requires) > 0 {
+		// (not for loops of inlined callees: with the caller's constant arguments such a loop can be legitimately unreachable)
+		if assume && !st.dead() && x.lock == nil && x.fi != nil && x.fi.Spec != nil && len(x.fi.Spec.Requires) > 0 && (fr.fi == nil || fr.fi.Key == x.curFunc) {
 			o := x.emit(st, lc.prefix+".cover.head", "cover", TFalse, n.Pos(), "loop head is reachable (must NOT be unsat)")
 			o.Cover = true
 		}
@@ -202,7 +203,7 @@ func (x *Xlat) loopInvs(st *State, fr *Frame, lc *loopCtx, n ast.Node, phase str
 		// vacuity guard: with the invariants assumed the loop head must still be reachable. An unsatisfiable head (a
 		// contradictory invariant or precondition, an inconsistency introduced by the encoding) would make every
 		// obligation of the body trivially provable.
-		if assume && assumed > 0 && !st.dead() && x.lock == nil {
+		if assume && assumed > 0 && !st.dead() && x.lock == nil && (fr.fi == nil || fr.fi.Key == x.curFunc) {
 			o := x.emit(st, lc.prefix+".cover.head", "cover", TFalse, n.Pos(), "loop head is reachable under the invariants (must NOT be unsat)")
 			o.Cover = true
 		}
